@@ -498,9 +498,13 @@ def drainLoopRT (c : RCx) : Nat → RT → RT
       let rt2 := transientLoopRT c (hooksFlagged c.u c.m) c.m.maxIterations rt1
       if rt2.st.err.isSome then rt2 else drainLoopRT c budget rt2
 
+/-- `_process_event_queue()`: the budget is `max_iterations` + the number of events queued when the
+    drain starts (`drainBudget`: those do not count, only what is enqueued while draining does) -/
+def drainFlaggedRT (c : RCx) (rt : RT) : RT := drainLoopRT c (drainBudget c.m rt.st) rt
+
 def syncSendRT (c : RCx) (e : Ev) (rt : RT) : RT :=
   if rt.st.status = "running" then
-    drainLoopRT c c.m.maxIterations { rt with st := { rt.st with queue := rt.st.queue ++ [⟨e, false⟩] } }
+    drainFlaggedRT c { rt with st := { rt.st with queue := rt.st.queue ++ [⟨e, false⟩] } }
   else rt
 
 -- idle interpreter / top level -------------------------------------------------------------------------
@@ -569,7 +573,7 @@ def loopCreated (c : RCx) (rt : RT) : RT :=
 
 def startFinish (c : RCx) (rt : RT) : RT :=
   match c.fl with
-  | .sync => drainLoopRT c c.m.maxIterations rt
+  | .sync => drainFlaggedRT c rt
   | .async => settle c 64 (loopCreated c rt)
 
 /-- `start()`: entry, then eventless settling, THEN (async: only if still running) the run loop -/
